@@ -54,6 +54,8 @@ Fixpoint tr (q : VS.query) : option q0 :=
       | Some s, Some i, Some u => Some (Z0Reduce s (name_of x) i u)
       | _, _, _ => None
       end
+  | VS.QLabel l b => option_map (Z0Label (name_of l)) (tr b)
+  | VS.QBreak l => Some (Z0Break (name_of l))
   | VS.QForeach src x init upd None =>
       match tr src, tr init, tr upd with
       | Some s, Some i, Some u => Some (Z0Foreach s (name_of x) i u None)
@@ -73,19 +75,24 @@ Definition erel (c : errclass) (val : option jv) (e : VS.err0) : Prop :=
   | VS.EVal v => val = Some (emb_v v)
   | VS.EMsg m => val = None \/ val = Some (VStr m)
   end.
-Definition xrel (a : option exn) (b : option VD.exn) : Prop :=
+(* breaks: c01vm's Den breaks to the label NAME, Sem to the id the name is bound to in the environment L *)
+Definition xrel (L : env) (a : option exn) (b : option VD.exn) : Prop :=
   match a, b with
   | None, None => True
   | Some (XErr O c val), Some (VD.XErr e) => erel c val e
+  | Some (XBreak i), Some (VD.XBrk l) => lookup_label L (name_of l) = Some i
   | _, _ => False
   end.
 (* agreement up to the point where Sem declines: either both results agree, or Sem's outputs are
    (the embedding of) a prefix of the VM-side outputs and Sem ends with a skip *)
-Definition R (rs : result) (rv : VD.result) : Prop :=
-  (fst rs = map emb_v (fst rv) /\ xrel (snd rs) (snd rv)) \/
+Definition R (L : env) (rs : result) (rv : VD.result) : Prop :=
+  (fst rs = map emb_v (fst rv) /\ xrel L (snd rs) (snd rv)) \/
   (exists why pre post, snd rs = Some (XSkip why) /\ fst rv = pre ++ post /\ fst rs = map emb_v pre).
 
-Lemma R_rseq a a' b b' : R a a' -> R b b' -> R (rseq a b) (VD.seq a' b').
+Section Rel.
+Variable L : env.
+
+Lemma R_rseq a a' b b' : R L a a' -> R L b b' -> R L (rseq a b) (VD.seq a' b').
 Proof.
   intros [[Ea Xa]|(why & pre & post & Sa & Pa & Ea)] Hb; destruct a as [ws x], a' as [ws' x']; cbn [fst snd] in *.
   - destruct x as [x|], x' as [x'|]; cbn [rseq VD.seq]; try (destruct x as [[|d]| | | | |]; contradiction); try contradiction.
@@ -98,8 +105,8 @@ Proof.
     + exists why, pre, (post ++ fst b'). rewrite Pa, app_assoc. auto.
 Qed.
 
-Lemma R_bind_list f f' : (forall w, R (f (emb_v w)) (f' w)) ->
-  forall ws', R (rbind_list (map emb_v ws') f) (VD.bind_list ws' f').
+Lemma R_bind_list f f' : (forall w, R L (f (emb_v w)) (f' w)) ->
+  forall ws', R L (rbind_list (map emb_v ws') f) (VD.bind_list ws' f').
 Proof.
   intros Hf. induction ws' as [|w r IH]; cbn [map rbind_list VD.bind_list].
   - left. split; [reflexivity|exact I].
@@ -115,7 +122,7 @@ Proof.
     rewrite app_assoc. reflexivity.
 Qed.
 
-Lemma R_rbind r r' f f' : R r r' -> (forall w, R (f (emb_v w)) (f' w)) -> R (rbind r f) (VD.bind r' f').
+Lemma R_rbind r r' f f' : R L r r' -> (forall w, R L (f (emb_v w)) (f' w)) -> R L (rbind r f) (VD.bind r' f').
 Proof.
   intros Hr Hf. unfold rbind, VD.bind.
   destruct Hr as [[Er Xr]|(why & pre & post & Sr & Pr & Er)].
@@ -178,6 +185,7 @@ Proof.
     + destruct (tr q1) eqn:E1, (tr q2) eqn:E2, (tr q3) eqn:E3; try discriminate. destruct (tr e) eqn:E4; try discriminate.
       injection H as <-. cbn. repeat split; eauto.
     + destruct (tr q1) eqn:E1, (tr q2) eqn:E2, (tr q3) eqn:E3; try discriminate. injection H as <-. cbn. repeat split; eauto.
+  - destruct (tr q) eqn:E1; try discriminate. cbn in H. injection H as <-. cbn. eauto.
   - destruct (tr q1) eqn:E1, (tr q2) eqn:E2; try discriminate. injection H as <-. cbn. repeat split; eauto.
   - injection H as <-. cbn [ok0]. split; [reflexivity|apply name_of_not_env].
   - destruct f; injection H as <-; exact I.
@@ -219,12 +227,12 @@ Definition try_v (a : VD.result) (h : option (VS.jv -> VD.result)) : VD.result :
   | r => r
   end.
 
-Lemma R_try a a' h h' : R a a' ->
+Lemma R_try a a' h h' : R L a a' ->
   match h, h' with
   | None, None => True
-  | Some f, Some f' => forall w, R (f (emb_v w)) (f' w)
+  | Some f, Some f' => forall w, R L (f (emb_v w)) (f' w)
   | _, _ => False
-  end -> R (try_s a h) (try_v a' h').
+  end -> R L (try_s a h) (try_v a' h').
 Proof.
   intros Ha Hh. destruct a as [ws x], a' as [ws' x'].
   destruct Ha as [[Ea Xa]|(why & pre & post & Sa & Pa & Ea)]; cbn [fst snd] in *.
@@ -238,6 +246,7 @@ Proof.
               destruct (f' (VS.errval (VS.EMsg m))) as [os y]; cbn [VD.seq fst snd]. auto.
            ++ apply R_rseq; [left; split; [exact Ea|exact I]|]. exact (Hh (VS.VStr m)).
       * left. split; [exact Ea|exact I].
+    + left. split; [exact Ea|exact Xa].
     + left. split; [exact Ea|exact I].
   - subst x. cbn [try_s]. right. exists why, pre, (post ++ match x' with
         | Some (VD.XErr e) => match h' with Some hf => fst (hf (VS.errval e)) | None => [] end
@@ -265,10 +274,11 @@ Definition arr_s (a : result) : result :=
 Definition arr_v (a : VD.result) : VD.result :=
   match a with (ws, None) => ([VS.VArr ws], None) | (_, Some x) => ([], Some x) end.
 
-Lemma R_array a a' : R a a' -> R (arr_s a) (arr_v a').
+Lemma R_array a a' : R L a a' -> R L (arr_s a) (arr_v a').
 Proof.
   intros [[Ea Xa]|(why & pre & post & Sa & Pa & Ea)]; destruct a as [ws x], a' as [ws' x']; cbn [fst snd] in *.
   - destruct x as [[[|d] c val| | | | |]|], x' as [[e|lb]|]; cbn [xrel] in Xa; try contradiction; cbn [arr_s arr_v].
+    + left. split; [reflexivity|exact Xa].
     + left. split; [reflexivity|exact Xa].
     + left. split; [|exact I]. cbn [fst map emb_v]. rewrite Ea. reflexivity.
   - subst x. cbn [arr_s]. right. exists why, [], (fst (arr_v (ws', x'))). auto.
@@ -292,6 +302,7 @@ Definition fold_rel (a : jv + exn) (b : VS.jv + VD.exn) : Prop :=
   match a, b with
   | inl x, inl y => x = emb_v y
   | inr (XErr O c val), inr (VD.XErr e) => erel c val e
+  | inr (XBreak i), inr (VD.XBrk l) => lookup_label L (name_of l) = Some i
   | inr (XSkip _), _ => True
   | _, _ => False
   end.
@@ -299,13 +310,14 @@ Definition fold_rel (a : jv + exn) (b : VS.jv + VD.exn) : Prop :=
 Lemma last_emb us acc : last (map emb_v us) (emb_v acc) = emb_v (last us acc).
 Proof. induction us as [|u r IH]; [reflexivity|]. cbn [map last]. destruct r; [reflexivity|exact IH]. Qed.
 
-Lemma fold_rel_ind upd upd' : (forall w acc, R (upd (emb_v w) (emb_v acc)) (upd' w acc)) ->
+Lemma fold_rel_ind upd upd' : (forall w acc, R L (upd (emb_v w) (emb_v acc)) (upd' w acc)) ->
   forall ws acc, fold_rel (reduce_fold0 upd (map emb_v ws) (emb_v acc)) (VD.reduce_fold upd' ws acc).
 Proof.
   intros Hu. induction ws as [|w r IH]; intros acc; cbn [map reduce_fold0 VD.reduce_fold]; [reflexivity|].
   destruct (Hu w acc) as [[Eu Xu]|(why & pre & post & Su & _ & _)];
     destruct (upd (emb_v w) (emb_v acc)) as [us x], (upd' w acc) as [us' x']; cbn [fst snd] in *.
   - destruct x as [[[|d] c val| | | | |]|], x' as [[e|lb]|]; cbn [xrel] in Xu; try contradiction.
+    + exact Xu.
     + exact Xu.
     + unfold VD.last_or. rewrite Eu, last_emb. apply IH.
   - subst x. exact I.
@@ -318,9 +330,9 @@ Proof.
   destruct (upd w acc) as [us [x|]]; [reflexivity|apply IH].
 Qed.
 
-Lemma R_reduce src src' upd upd' : R src src' ->
-  (forall w acc, R (upd (emb_v w) (emb_v acc)) (upd' w acc)) ->
-  forall s0, R (red_s src upd (emb_v s0)) (red_v src' upd' s0).
+Lemma R_reduce src src' upd upd' : R L src src' ->
+  (forall w acc, R L (upd (emb_v w) (emb_v acc)) (upd' w acc)) ->
+  forall s0, R L (red_s src upd (emb_v s0)) (red_v src' upd' s0).
 Proof.
   intros Hs Hu s0. destruct src as [ws sx], src' as [ws' sx'].
   destruct Hs as [[Es Xs]|(why & pre & post & Ss & Ps & Es)]; cbn [fst snd] in *; unfold red_s, red_v.
@@ -328,11 +340,13 @@ Proof.
     destruct (reduce_fold0 upd (map emb_v ws') (emb_v s0)) as [a|e], (VD.reduce_fold upd' ws' s0) as [a'|e']; cbn [fold_rel] in HF.
     + subst a. destruct sx as [[[|d] c val| | | | |]|], sx' as [[e|lb]|]; cbn [xrel] in Xs; try contradiction.
       * left. split; [reflexivity|exact Xs].
+      * left. split; [reflexivity|exact Xs].
       * left. split; [reflexivity|exact I].
     + contradiction.
     + destruct e as [[|d] c val| | | | |]; try contradiction. destruct sx' as [e0|]; right; [exists why, [], []|exists why, [], [a']]; cbn; auto.
-    + destruct e as [[|d] c val| | | | |]; try contradiction.
+    + destruct e as [[|d] c val|i| | | |]; try contradiction.
       * destruct e' as [e'|lb]; [|contradiction]. left. split; [reflexivity|exact HF].
+      * destruct e' as [e'|lb]; [contradiction|]. left. split; [reflexivity|exact HF].
       * right. exists why, [], []. auto.
   - subst ws sx ws'. rewrite reduce_fold_app. pose proof (fold_rel_ind upd upd' Hu pre s0) as HF.
     destruct (reduce_fold0 upd (map emb_v pre) (emb_v s0)) as [a|e], (VD.reduce_fold upd' pre s0) as [a'|e']; cbn [fold_rel] in HF.
@@ -343,8 +357,9 @@ Proof.
     + destruct e as [[|d] c val| | | | |]; try contradiction. right. exists why0, [], (fst (match VD.reduce_fold upd' post a' with
                                    | inl acc => match sx' with Some e => ([], Some e) | None => ([acc], None) end
                                    | inr e => ([], Some e) end)). auto.
-    + destruct e as [[|d] c val| | | | |]; try contradiction.
+    + destruct e as [[|d] c val|i| | | |]; try contradiction.
       * destruct e' as [e'|lb]; [|contradiction]. left. split; [reflexivity|exact HF].
+      * destruct e' as [e'|lb]; [contradiction|]. left. split; [reflexivity|exact HF].
       * right. exists why0, [], []. auto.
 Qed.
 
@@ -369,10 +384,10 @@ Lemma den_reduce_eq nt src x init upd rho v :
 Proof. reflexivity. Qed.
 
 (* foreach *)
-Lemma R_skip why r' : R ([], Some (XSkip why)) r'.
+Lemma R_skip why r' : R L ([], Some (XSkip why)) r'.
 Proof. right. exists why, [], (fst r'). auto. Qed.
 
-Lemma R_rseq' a a' b b' : R a a' -> (snd a = None -> R b b') -> R (rseq a b) (VD.seq a' b').
+Lemma R_rseq' a a' b b' : R L a a' -> (snd a = None -> R L b b') -> R L (rseq a b) (VD.seq a' b').
 Proof.
   intros Ha Hb. destruct (snd a) as [x|] eqn:E.
   - replace (rseq a b) with (rseq a ([], Some (XSkip []))) by (destruct a as [ws [y|]]; [reflexivity|discriminate]).
@@ -412,10 +427,10 @@ Lemma rbind_none r f : snd (rbind r f) = None -> snd r = None.
 Proof. unfold rbind. destruct (rbind_list (fst r) f) as [os [x|]]; cbn [snd]; [discriminate|auto]. Qed.
 
 Lemma R_foreach_fold upd upd' ext ext' tail post sx' :
-  (forall w acc, R (upd (emb_v w) (emb_v acc)) (upd' w acc)) ->
-  (forall w u, R (ext (emb_v w) (emb_v u)) (ext' w u)) ->
-  (forall acc, R tail (VD.seq (VD.foreach_fold upd' ext' post acc) ([], sx'))) ->
-  forall pre acc, R (rseq (foreach_fold0 upd ext (map emb_v pre) (emb_v acc)) tail)
+  (forall w acc, R L (upd (emb_v w) (emb_v acc)) (upd' w acc)) ->
+  (forall w u, R L (ext (emb_v w) (emb_v u)) (ext' w u)) ->
+  (forall acc, R L tail (VD.seq (VD.foreach_fold upd' ext' post acc) ([], sx'))) ->
+  forall pre acc, R L (rseq (foreach_fold0 upd ext (map emb_v pre) (emb_v acc)) tail)
                     (VD.seq (VD.foreach_fold upd' ext' (pre ++ post) acc) ([], sx')).
 Proof.
   intros Hu He Ht. induction pre as [|w r IH]; intros acc.
@@ -432,10 +447,10 @@ Definition fe_s (src : result) (upd ext : jv -> jv -> result) (s0 : jv) : result
 Definition fe_v (src : VD.result) (upd ext : VS.jv -> VS.jv -> VD.result) (s0 : VS.jv) : VD.result :=
   let '(ws, sx) := src in VD.seq (VD.foreach_fold upd ext ws s0) ([], sx).
 
-Lemma R_foreach src src' upd upd' ext ext' : R src src' ->
-  (forall w acc, R (upd (emb_v w) (emb_v acc)) (upd' w acc)) ->
-  (forall w u, R (ext (emb_v w) (emb_v u)) (ext' w u)) ->
-  forall s0, R (fe_s src upd ext (emb_v s0)) (fe_v src' upd' ext' s0).
+Lemma R_foreach src src' upd upd' ext ext' : R L src src' ->
+  (forall w acc, R L (upd (emb_v w) (emb_v acc)) (upd' w acc)) ->
+  (forall w u, R L (ext (emb_v w) (emb_v u)) (ext' w u)) ->
+  forall s0, R L (fe_s src upd ext (emb_v s0)) (fe_v src' upd' ext' s0).
 Proof.
   intros Hs Hu He s0. destruct src as [ws sx], src' as [ws' sx']. unfold fe_s, fe_v.
   destruct Hs as [[Es Xs]|(why & pre & post & Ss & Ps & Es)]; cbn [fst snd] in *.
@@ -477,11 +492,12 @@ Proof. destruct w as [|[]| | | |]; reflexivity. Qed.
 Lemma filter_emb l : filter truthy (map emb_v l) = map emb_v (filter VS.truthy l).
 Proof. induction l as [|w r IH]; [reflexivity|]. cbn [map filter]. rewrite truthy_emb. destruct (VS.truthy w); cbn [map]; rewrite IH; reflexivity. Qed.
 
-Lemma R_alt a a' b b' : R a a' -> R b b' -> R (alt_s a b) (alt_v a' b').
+Lemma R_alt a a' b b' : R L a a' -> R L b b' -> R L (alt_s a b) (alt_v a' b').
 Proof.
   intros [[Ea Xa]|(why & pre & post & Sa & Pa & Ea)] Hb; destruct a as [ws x], a' as [ws' x']; cbn [fst snd] in *; unfold alt_s, alt_v.
   - subst ws. rewrite filter_emb.
     destruct x as [[[|d] c val| | | | |]|], x' as [[e|lb]|]; cbn [xrel] in Xa; try contradiction.
+    + left. split; [reflexivity|exact Xa].
     + left. split; [reflexivity|exact Xa].
     + destruct (filter VS.truthy ws') as [|t ts]; cbn [map]; [exact Hb|]. left. split; [reflexivity|exact I].
   - subst x ws ws'. rewrite filter_emb, filter_app. right.
@@ -497,24 +513,60 @@ Proof. cbn [den0]. destruct (den0 rs0 a rho v) as [ws [x|]]; reflexivity. Qed.
 Lemma den_alt_eq nt a b rho v : VD.den nt (VS.QAlt a b) rho v = alt_v (VD.den nt a rho v) (VD.den nt b rho v).
 Proof. cbn [VD.den]. destruct (VD.den nt a rho v) as [ws [x|]]; reflexivity. Qed.
 
+(* label: Den catches the break by name, den0 by the id the name was bound to *)
+Definition lab_v (l : N) (r : VD.result) : VD.result :=
+  match r with
+  | (ws, Some (VD.XBrk l')) => if N.eqb l l' then (ws, None) else (ws, Some (VD.XBrk l'))
+  | r => r
+  end.
+
+Lemma den_label_eq nt l b rho v : VD.den nt (VS.QLabel l b) rho v = lab_v l (VD.den nt b rho v).
+Proof. cbn [VD.den]. destruct (VD.den nt b rho v) as [ws [[e|l']|]]; reflexivity. Qed.
+
+Lemma R_label l a a' : R (BLabel (name_of l) (lab_bound L) :: L) a a' -> R L (label_res (lab_bound L) a) (lab_v l a').
+Proof.
+  intros [[Ea Xa]|(why & pre & post & Sa & Pa & Ea)]; destruct a as [ws x], a' as [ws' x']; cbn [fst snd] in *.
+  - destruct x as [[[|d] c val|i| | | |]|], x' as [[e|lb]|]; cbn [xrel] in Xa; try contradiction; cbn [label_res lab_v].
+    + left. split; [exact Ea|exact Xa].
+    + cbn [lookup_label] in Xa. rewrite name_of_eqb in Xa. destruct (N.eqb l lb).
+      * injection Xa as <-. rewrite N.eqb_refl. left. split; [exact Ea|exact I].
+      * pose proof (lab_ids_lt _ _ (lookup_label_in _ _ _ Xa)) as Hlt.
+        destruct (N.eqb_spec i (lab_bound L)); [lia|]. left. split; [exact Ea|exact Xa].
+    + left. split; [exact Ea|exact I].
+  - subst x. cbn [label_res]. right. exists why, pre, post. split; [reflexivity|]. split; [|exact Ea].
+    destruct x' as [[e|lb]|]; cbn [lab_v fst]; try exact Pa. destruct (N.eqb l lb); exact Pa.
+Qed.
+
+End Rel.
+
+Lemma R_env_ext L L' a b : (forall nm, lookup_label L nm = lookup_label L' nm) -> R L a b -> R L' a b.
+Proof.
+  intros H [[Ea Xa]|Hs]; [left|right; exact Hs]. split; [exact Ea|].
+  destruct (snd a) as [[[|d] c val|i| | | |]|], (snd b) as [[e|lb]|]; cbn [xrel] in *; try assumption.
+  rewrite <- H. exact Xa.
+Qed.
+
+Lemma renv_label rs rv nm i : renv rs rv -> renv (BLabel nm i :: rs) rv.
+Proof. intros [Hv Hl]. split; [exact Hv|]. intros x. cbn [lookup_var]. apply Hl. Qed.
+
 Section Natives.
 Variable nt : VC.natives.
 (* what the link needs from the natives instance: they are Sem's, on embedded values *)
-Hypothesis Hiter : forall w, R (iter_res false (emb_v w)) (VD.iter_res nt w).
-Hypothesis Hfield : forall w c k, R (of_nres false (fn_index2 (emb_v w) (VStr (c :: k)))) (VD.of_sum (VC.n_index nt w (VS.VStr (c :: k)))).
+Hypothesis Hiter : forall L w, R L (iter_res false (emb_v w)) (VD.iter_res nt w).
+Hypothesis Hfield : forall L w c k, R L (of_nres false (fn_index2 (emb_v w) (VStr (c :: k)))) (VD.of_sum (VC.n_index nt w (VS.VStr (c :: k)))).
 Hypothesis Herr : forall v, VC.n_fn0 nt VS.F0Error v = inr (VS.EVal v).
-Hypothesis Hlen : forall v, R (of_nres false (fn_length (emb_v v))) (VD.of_sum (VC.n_fn0 nt VS.F0Length v)).
+Hypothesis Hlen : forall L v, R L (of_nres false (fn_length (emb_v v))) (VD.of_sum (VC.n_fn0 nt VS.F0Length v)).
 
-Lemma R_single w : R ([emb_v w], None) ([w], None).
+Lemma R_single L w : R L ([emb_v w], None) ([w], None).
 Proof. left. split; [reflexivity|exact I]. Qed.
 
 Fixpoint den_link (q : VS.query) : forall q', tr q = Some q' ->
-  forall rs rv v, renv rs rv -> R (den0 false q' rs (emb_v v)) (VD.den nt q rv v).
+  forall rs rv v, renv rs rv -> R rs (den0 false q' rs (emb_v v)) (VD.den nt q rv v).
 Proof.
   destruct q; intros q' H rs rv v Hr; cbn [tr] in H.
   all: try discriminate.
   - injection H as <-. apply R_single.
-  - destruct c; try discriminate; injection H as <-; cbn [den0 VD.den]; [exact (R_single VS.VNull)|exact (R_single (VS.VBool b))|exact (R_single (VS.VNum z))|exact (R_single (VS.VStr s))].
+  - destruct c; try discriminate; injection H as <-; cbn [den0 VD.den]; [exact (R_single rs VS.VNull)|exact (R_single rs (VS.VBool b))|exact (R_single rs (VS.VNum z))|exact (R_single rs (VS.VStr s))].
   - destruct (tr q1) eqn:E1, (tr q2) eqn:E2; try discriminate. injection H as <-. cbn [den0 VD.den].
     apply R_rbind; [eapply den_link; eassumption|]. intros w. eapply den_link; eassumption.
   - destruct (tr q1) eqn:E1, (tr q2) eqn:E2; try discriminate. injection H as <-. cbn [den0 VD.den].
@@ -541,20 +593,27 @@ Proof.
     rewrite den0_array_eq, den_array_eq. apply R_array. eapply den_link; eassumption.
   - (* reduce *) destruct (tr q1) eqn:E1, (tr q2) eqn:E2, (tr q3) eqn:E3; try discriminate. injection H as <-.
     rewrite den0_reduce_eq, den_reduce_eq. apply R_rbind; [eapply den_link; eassumption|]. intros s0.
-    apply R_reduce; [eapply den_link; eassumption|]. intros w acc. eapply den_link; [eassumption|]. apply renv_bind1. exact Hr.
+    apply R_reduce; [eapply den_link; eassumption|]. intros w acc.
+    apply (R_env_ext (BVar (name_of x) (plain (emb_v w)) :: rs) rs); [reflexivity|]. eapply den_link; [eassumption|]. apply renv_bind1. exact Hr.
   - (* foreach *) destruct ext as [e|].
     + destruct (tr q1) eqn:E1, (tr q2) eqn:E2, (tr q3) eqn:E3; try discriminate. destruct (tr e) eqn:E4; try discriminate.
       injection H as <-. rewrite den0_foreach_eq, den_foreach_eq. apply R_rbind; [eapply den_link; eassumption|]. intros s0.
       apply R_foreach; [eapply den_link; eassumption| |].
-      * intros w acc. eapply den_link; [eassumption|]. apply renv_bind1. exact Hr.
-      * intros w u. eapply den_link; [eassumption|]. apply renv_bind1. exact Hr.
+      * intros w acc. apply (R_env_ext (BVar (name_of x) (plain (emb_v w)) :: rs) rs); [reflexivity|]. eapply den_link; [eassumption|]. apply renv_bind1. exact Hr.
+      * intros w u. apply (R_env_ext (BVar (name_of x) (plain (emb_v w)) :: rs) rs); [reflexivity|]. eapply den_link; [eassumption|]. apply renv_bind1. exact Hr.
     + destruct (tr q1) eqn:E1, (tr q2) eqn:E2, (tr q3) eqn:E3; try discriminate.
       injection H as <-. rewrite den0_foreach_eq, den_foreach_eq. apply R_rbind; [eapply den_link; eassumption|]. intros s0.
       apply R_foreach; [eapply den_link; eassumption| |].
-      * intros w acc. eapply den_link; [eassumption|]. apply renv_bind1. exact Hr.
+      * intros w acc. apply (R_env_ext (BVar (name_of x) (plain (emb_v w)) :: rs) rs); [reflexivity|]. eapply den_link; [eassumption|]. apply renv_bind1. exact Hr.
       * intros w u. apply R_single.
+  - (* label *) destruct (tr q) eqn:E1; try discriminate. cbn in H. injection H as <-.
+    rewrite den_label_eq. cbn [den0]. apply R_label. eapply den_link; [eassumption|]. apply renv_label. exact Hr.
+  - (* break *) injection H as <-. cbn [den0 VD.den]. destruct (lookup_label rs (name_of l)) as [i|] eqn:E.
+    + left. split; [reflexivity|exact E].
+    + apply R_skip.
   - (* bind *) destruct (tr q1) eqn:E1, (tr q2) eqn:E2; try discriminate. injection H as <-. cbn [den0 VD.den].
-    apply R_rbind; [eapply den_link; eassumption|]. intros w. eapply den_link; [eassumption|]. apply renv_bind. exact Hr.
+    apply R_rbind; [eapply den_link; eassumption|]. intros w.
+    apply (R_env_ext (bind_env rs (name_of x) (emb_v w)) rs); [reflexivity|]. eapply den_link; [eassumption|]. apply renv_bind. exact Hr.
   - (* var *) injection H as <-. cbn [den0 VD.den]. destruct Hr as [Hv Hl]. rewrite Hl.
     destruct (VS.lookup x rv) as [w|]; cbn [option_map].
     + apply R_single.
@@ -613,7 +672,7 @@ Definition sem_natives : VC.natives :=
   {| VC.n_index := s_index; VC.n_iter := s_iter; VC.n_fn0 := s_fn0;
      VC.n_fn2 := fun _ _ _ _ => inr (VS.EMsg []) |}.
 
-Lemma R_msg c o : R ([], Some (XErr O c (option_map VStr o))) ([], Some (VD.XErr (emsg (option_map VStr o)))).
+Lemma R_msg L c o : R L ([], Some (XErr O c (option_map VStr o))) ([], Some (VD.XErr (emsg (option_map VStr o)))).
 Proof. left. split; [reflexivity|]. destruct o; cbn; auto. Qed.
 
 Lemma msg1_str pre v : exists o, msg1 pre v = option_map VStr o.
@@ -630,7 +689,7 @@ Ltac msg_case :=
   unfold mask, msg_iterator, err_exp_object; cbn [of_nres]; unfold mask;
   match goal with |- context [msg1 ?p ?x] => destruct (msg1_str p x) as [o Ho]; rewrite Ho end; apply R_msg.
 
-Lemma sem_iter w : R (iter_res false (emb_v w)) (VD.iter_res sem_natives w).
+Lemma sem_iter L w : R L (iter_res false (emb_v w)) (VD.iter_res sem_natives w).
 Proof.
   unfold VD.iter_res. cbn [VC.n_iter sem_natives].
   destruct w; cbn [emb_v iter_res s_iter]; try msg_case.
@@ -638,8 +697,8 @@ Proof.
   - left. split; [|exact I]. cbn [fst]. rewrite !map_map. reflexivity.
 Qed.
 
-Lemma sem_field w c k :
-  R (of_nres false (fn_index2 (emb_v w) (VStr (c :: k)))) (VD.of_sum (VC.n_index sem_natives w (VS.VStr (c :: k)))).
+Lemma sem_field L w c k :
+  R L (of_nres false (fn_index2 (emb_v w) (VStr (c :: k)))) (VD.of_sum (VC.n_index sem_natives w (VS.VStr (c :: k)))).
 Proof.
   cbn [VC.n_index sem_natives s_index].
   destruct w; cbn [emb_v fn_index2 of_nres VD.of_sum]; try msg_case.
@@ -650,7 +709,7 @@ Qed.
 Lemma zlen_map {A B} (f : A -> B) l : zlen (map f l) = zlen l.
 Proof. unfold zlen. rewrite map_length. reflexivity. Qed.
 
-Lemma sem_length v : R (of_nres false (fn_length (emb_v v))) (VD.of_sum (VC.n_fn0 sem_natives VS.F0Length v)).
+Lemma sem_length L v : R L (of_nres false (fn_length (emb_v v))) (VD.of_sum (VC.n_fn0 sem_natives VS.F0Length v)).
 Proof.
   cbn [VC.n_fn0 sem_natives s_fn0]. destruct v; cbn [emb_v fn_length of_nres VD.of_sum ok_int err];
     try (left; split; [reflexivity|exact I]).
@@ -660,7 +719,7 @@ Proof.
 Qed.
 
 Theorem den_link_sem q q' : tr q = Some q' ->
-  forall v, R (den0 false q' [] (emb_v v)) (VD.den sem_natives q [] v).
+  forall v, R [] (den0 false q' [] (emb_v v)) (VD.den sem_natives q [] v).
 Proof.
   intros H v. apply (den_link sem_natives sem_iter sem_field (fun v => eq_refl) sem_length q q' H [] [] v renv_nil).
 Qed.
